@@ -416,8 +416,9 @@ pub struct SObjs {
     rx: Vec<RefCell<Option<loom::sync::mpsc::Receiver<Msg>>>>,
     atomics: Vec<AtomicUsize>,
     cells: Vec<loom::cell::UnsafeCell<u64>>,
-    mutexes: Vec<loom::sync::Mutex<()>>,
-    rwlocks: Vec<loom::sync::RwLock<()>>,
+    // `Option` so that `into_inner` can move the lock out (main, after every join)
+    mutexes: Vec<std::cell::UnsafeCell<Option<loom::sync::Mutex<u64>>>>,
+    rwlocks: Vec<std::cell::UnsafeCell<Option<loom::sync::RwLock<u64>>>>,
     condvars: Vec<loom::sync::Condvar>,
     notifies: Vec<loom::sync::Notify>,
     payload_drops: RefCell<Vec<u64>>,
@@ -440,8 +441,8 @@ impl SObjs {
         SObjs {
             atomics: o.atomics.iter().map(|v| AtomicUsize::new(*v as usize)).collect(),
             cells: (0..o.cells).map(|_| loom::cell::UnsafeCell::new(0)).collect(),
-            mutexes: (0..o.mutexes).map(|_| loom::sync::Mutex::new(())).collect(),
-            rwlocks: (0..o.rwlocks).map(|_| loom::sync::RwLock::new(())).collect(),
+            mutexes: (0..o.mutexes).map(|_| std::cell::UnsafeCell::new(Some(loom::sync::Mutex::new(0)))).collect(),
+            rwlocks: (0..o.rwlocks).map(|_| std::cell::UnsafeCell::new(Some(loom::sync::RwLock::new(0)))).collect(),
             condvars: (0..o.condvars).map(|_| loom::sync::Condvar::new()).collect(),
             notifies: (0..o.notifies).map(|_| loom::sync::Notify::new()).collect(),
             tx,
@@ -456,6 +457,25 @@ impl SObjs {
     }
 }
 
+impl SObjs {
+    // SAFETY (all four): loom threads of one execution never run in parallel, and a lock is only
+    // taken out of its slot by main once no guard exists (family well-formedness).
+    fn mx(&self, m: usize) -> &'static loom::sync::Mutex<u64> {
+        unsafe { &*((*self.mutexes[m].get()).as_ref().expect("mutex was consumed") as *const _) }
+    }
+    fn rw(&self, l: usize) -> &'static loom::sync::RwLock<u64> {
+        unsafe { &*((*self.rwlocks[l].get()).as_ref().expect("rwlock was consumed") as *const _) }
+    }
+    #[allow(clippy::mut_from_ref)]
+    fn mx_slot(&self, m: usize) -> &mut Option<loom::sync::Mutex<u64>> {
+        unsafe { &mut *self.mutexes[m].get() }
+    }
+    #[allow(clippy::mut_from_ref)]
+    fn rw_slot(&self, l: usize) -> &mut Option<loom::sync::RwLock<u64>> {
+        unsafe { &mut *self.rwlocks[l].get() }
+    }
+}
+
 fn run_iteration(prog: &Arc<Program>, rec: &Arc<Mutex<Rec>>) {
     let objs = Rc::new(SObjs::new(prog));
     *objs.threads[0].borrow_mut() = Some(loom::thread::current());
@@ -463,8 +483,8 @@ fn run_iteration(prog: &Arc<Program>, rec: &Arc<Mutex<Rec>>) {
 }
 
 enum RwG {
-    R(loom::sync::RwLockReadGuard<'static, ()>),
-    W(loom::sync::RwLockWriteGuard<'static, ()>),
+    R(loom::sync::RwLockReadGuard<'static, u64>),
+    W(loom::sync::RwLockWriteGuard<'static, u64>),
 }
 
 fn layout() -> std::alloc::Layout {
@@ -474,7 +494,7 @@ fn layout() -> std::alloc::Layout {
 fn exec_thread(t: usize, prog: Arc<Program>, objs: Rc<SObjs>, rec: Arc<Mutex<Rec>>) {
     // `o` outlives the guards below: `objs` (declared first) is dropped last.
     let o: &'static SObjs = unsafe { &*(Rc::as_ptr(&objs)) };
-    let mut mg: Vec<Option<loom::sync::MutexGuard<'static, ()>>> = (0..o.mutexes.len()).map(|_| None).collect();
+    let mut mg: Vec<Option<loom::sync::MutexGuard<'static, u64>>> = (0..o.mutexes.len()).map(|_| None).collect();
     let mut rg: Vec<Option<RwG>> = (0..o.rwlocks.len()).map(|_| None).collect();
     let mut results: Vec<Res> = Vec::with_capacity(prog.threads[t].len());
     // handles moved into this thread's frame by `ArcHold` (dropped by unwinding on a panic)
@@ -507,7 +527,7 @@ fn exec_held(
     objs: &Rc<SObjs>,
     o: &'static SObjs,
     rec: &Arc<Mutex<Rec>>,
-    mg: &mut [Option<loom::sync::MutexGuard<'static, ()>>],
+    mg: &mut [Option<loom::sync::MutexGuard<'static, u64>>],
     rg: &mut [Option<RwG>],
     own: &mut [Option<Handle>],
 ) -> Res {
@@ -539,7 +559,7 @@ fn exec_op(
     objs: &Rc<SObjs>,
     o: &'static SObjs,
     rec: &Arc<Mutex<Rec>>,
-    mg: &mut [Option<loom::sync::MutexGuard<'static, ()>>],
+    mg: &mut [Option<loom::sync::MutexGuard<'static, u64>>],
     rg: &mut [Option<RwG>],
 ) -> Res {
     match *k {
@@ -584,11 +604,11 @@ fn exec_op(
             Res::U
         }
         K::Lock { m } => {
-            let g = o.mutexes[m].lock().unwrap();
+            let g = o.mx(m).lock().unwrap();
             mg[m] = Some(g);
             Res::U
         }
-        K::TryLock { m } => match o.mutexes[m].try_lock() {
+        K::TryLock { m } => match o.mx(m).try_lock() {
             Ok(g) => {
                 mg[m] = Some(g);
                 Res::Ok(0)
@@ -600,10 +620,10 @@ fn exec_op(
             Res::U
         }
         K::Read { l } => {
-            rg[l] = Some(RwG::R(o.rwlocks[l].read().unwrap()));
+            rg[l] = Some(RwG::R(o.rw(l).read().unwrap()));
             Res::U
         }
-        K::TryRead { l } => match o.rwlocks[l].try_read() {
+        K::TryRead { l } => match o.rw(l).try_read() {
             Ok(g) => {
                 rg[l] = Some(RwG::R(g));
                 Res::Ok(0)
@@ -611,10 +631,10 @@ fn exec_op(
             Err(_) => Res::Err(0),
         },
         K::Write { l } => {
-            rg[l] = Some(RwG::W(o.rwlocks[l].write().unwrap()));
+            rg[l] = Some(RwG::W(o.rw(l).write().unwrap()));
             Res::U
         }
-        K::TryWrite { l } => match o.rwlocks[l].try_write() {
+        K::TryWrite { l } => match o.rw(l).try_write() {
             Ok(g) => {
                 rg[l] = Some(RwG::W(g));
                 Res::Ok(0)
@@ -625,6 +645,26 @@ fn exec_op(
             drop(rg[l].take().expect("unlock without guard"));
             Res::U
         }
+        K::GSet { m, v } => {
+            **mg[m].as_mut().expect("gset without guard") = v;
+            Res::U
+        }
+        K::GGet { m } => Res::V(**mg[m].as_ref().expect("gget without guard")),
+        K::LSet { l, v } => match rg[l].as_mut().expect("lset without guard") {
+            RwG::W(g) => {
+                **g = v;
+                Res::U
+            }
+            RwG::R(_) => panic!("lset through a read guard"),
+        },
+        K::LGet { l } => Res::V(match rg[l].as_ref().expect("lget without guard") {
+            RwG::W(g) => **g,
+            RwG::R(g) => **g,
+        }),
+        K::MGetMut { m } => Res::V(*o.mx_slot(m).as_mut().expect("mutex was consumed").get_mut().unwrap()),
+        K::LGetMut { l } => Res::V(*o.rw_slot(l).as_mut().expect("rwlock was consumed").get_mut().unwrap()),
+        K::MIntoInner { m } => Res::V(o.mx_slot(m).take().expect("mutex was consumed").into_inner().unwrap()),
+        K::LIntoInner { l } => Res::V(o.rw_slot(l).take().expect("rwlock was consumed").into_inner().unwrap()),
         K::Wait { cv, m } => {
             let g = mg[m].take().expect("wait without guard");
             let g = o.condvars[cv].wait(g).unwrap();
